@@ -143,10 +143,13 @@ def cases(rng: random.Random, tier: str):
             # queries must not depend on earlier queries: absolute depths again after relative ones, for the node
             # and for the nodes between it and the ancestor
             q([A("depth"), tk(n), None, True], lambda: t.get_depth(n), int)
-            p_ = t.get_parent(n)
-            while p_ is not None and p_ is not a:
-                q([A("depth"), tk(p_), None, True], lambda: t.get_depth(p_), int)
-                p_ = t.get_parent(p_)
+            try:
+                p_ = t.get_parent(n)
+                while p_ is not None and p_ is not a:
+                    q([A("depth"), tk(p_), None, True], lambda: t.get_depth(p_), int)
+                    p_ = t.get_parent(p_)
+            except Exception:  # noqa  (a library that answers wrongly here is caught by the queries themselves)
+                pass
             q([A("anc"), tk(n)], lambda: list(t.get_ancestors(n)), lambda l: [tk(x) for x in l])
         line = dumps([A("tree-queries"), zoo.class_table(), orgs.sexp(), [A("tree"), tree_s],
                       [A("foreign")] + foreign_s, [A("queries")] + qs])
